@@ -367,6 +367,8 @@ pub struct Style {
     pub prefixed: bool,
     /// write FILTER expressions with the fewest parentheses (operator precedence decides)
     pub min_parens: bool,
+    /// spell one variable occurrence in three with the `$` sigil
+    pub dollar: bool,
 }
 
 fn kw(s: &Style, k: &str) -> String {
@@ -460,7 +462,50 @@ pub fn print_p(p: &P, st: &Style) -> String {
     }
 }
 
+/// `?v` -> `$v` for about one occurrence in three (outside literals and IRIs); which ones is
+/// a function of the text alone
+fn mix_sigils(text: &str) -> String {
+    let b = text.as_bytes();
+    let mut out = String::with_capacity(text.len());
+    let (mut in_lit, mut in_iri, mut esc) = (false, false, false);
+    for (i, ch) in text.char_indices() {
+        if in_lit {
+            if esc {
+                esc = false;
+            } else if ch == '\\' {
+                esc = true;
+            } else if ch == '"' {
+                in_lit = false;
+            }
+            out.push(ch);
+            continue;
+        }
+        if in_iri {
+            if ch == '>' {
+                in_iri = false;
+            }
+            out.push(ch);
+            continue;
+        }
+        match ch {
+            '"' => in_lit = true,
+            '<' if text[i..].starts_with("<http") => in_iri = true,
+            '?' if b.get(i + 1).is_some_and(|c| c.is_ascii_alphabetic()) && (i * 2654435761usize >> 7) % 3 == 0 => {
+                out.push('$');
+                continue;
+            }
+            _ => {}
+        }
+        out.push(ch);
+    }
+    out
+}
+
 pub fn print_select(q: &Select, st: &Style) -> String {
+    if st.dollar {
+        let plain = Style { dollar: false, ..st.clone() };
+        return mix_sigils(&print_select(q, &plain));
+    }
     if st.prefixed && !USE_PREFIX.with(|u| u.get()) {
         USE_PREFIX.with(|u| u.set(true));
         let body = print_select(q, st);
